@@ -27,11 +27,12 @@ PROPS = {
         technique="TLA+ state machine (HMC.tla) of the leapfrog integrator over dyadic fixed point, reversibility and "
                   "alpha antisymmetry model-checked by TLC; trajectories logged from the real HMC.edit (L=1..4, same "
                   "key) validated by TLC (HMCTrace.tla), the unobserved momentum inferred from the first position",
-        text="3 programs with affine gradients (x~normal(1.5,1); x~normal(1,1), y~normal(x,0.5); x,y,z normal chain "
-             "with an unselected flip) x every non-empty selection of the continuous addresses x eps in {1/2,1/4} x "
+        text="4 programs with affine gradients (x~normal(1.5,1); x~normal(1,1), y~normal(x,0.5); x,y,z normal chain "
+             "with an unselected flip; array-valued v~normal([.5,-1],1), y~normal(v[0],1)) x every non-empty selection of the continuous addresses x eps in {1/2,1/4} x "
              "start states on a quarter grid x keys: HMC(sel,eps,L=k) for k=1..4 with the same key gives prefixes of "
              "one trajectory; TLC infers p0 from q1 and checks q2..q4 and alpha1..alpha4 against Leap (fixed point "
-             "2^-16, tolerance 2^-10 on positions, 2^-7 on alpha) and that unselected / discrete choices are unchanged.",
+             "2^-16, tolerance 2^-10 on positions, 2^-7 on alpha) and that unselected / discrete choices are unchanged; the momenta of "
+             "different coordinates inferred over 256 keys must be independent in sign (Hoeffding, decided by TLC).",
         note="Trusted: TLC, builder, float32 vs fixed point within the stated tolerance. Invariance of the target is "
              "the textbook consequence of reversibility + volume preservation + alpha, not tested statistically.",
     ),
@@ -41,6 +42,8 @@ U16 = 65536
 TOLQ = 64
 TOLA = 1024
 NKEY = 6
+NIND = 256       # keys of the momentum-independence clause (HBI = 64, HBI^2 >= 16*NIND)
+HBI = 64
 
 
 def _fx(x):
@@ -48,19 +51,37 @@ def _fx(x):
     return np.rint(np.asarray(x, dtype=np.float64) * U16).astype(np.int64)
 
 
+def _groups(sites):
+    """Addresses in order with the coordinate indices they hold (len > 1: array-valued choice)."""
+    out = []
+    for j, s in enumerate(sites):
+        if out and out[-1][0] == s["a"]:
+            out[-1][1].append(j)
+        else:
+            out.append((s["a"], [j]))
+    return out
+
+
 def _build(m):
     import genjax
     import jax.numpy as jnp
     sites = m["sites"]
+    groups = _groups(sites)
 
     @genjax.gen
     def model():
-        vals = []
-        for j, s in enumerate(sites):
-            mean = jnp.float32(s["mu4"] / 4.0) if s["pa"] == 0 else vals[s["pa"] - 1]
-            v = genjax.normal(mean, jnp.float32(1.0 / s["sinv"])) @ s["a"]
-            vals.append(v)
-            if m["disc"] and j == 0:
+        vals = [None] * len(sites)
+        for gi, (a, idx) in enumerate(groups):
+            s0 = sites[idx[0]]
+            if len(idx) == 1:
+                mean = jnp.float32(s0["mu4"] / 4.0) if s0["pa"] == 0 else vals[s0["pa"] - 1]
+                vals[idx[0]] = genjax.normal(mean, jnp.float32(1.0 / s0["sinv"])) @ a
+            else:       # array-valued choice: elements with constant means, common sigma
+                mean = jnp.asarray([sites[j]["mu4"] / 4.0 for j in idx], dtype=jnp.float32)
+                v = genjax.normal(mean, jnp.float32(1.0 / s0["sinv"])) @ a
+                for n, j in enumerate(idx):
+                    vals[j] = v[n]
+            if m["disc"] and gi == 0:
                 _ = genjax.flip(0.25) @ "b"
         return vals[-1]
     return model
@@ -79,10 +100,11 @@ def run_case(cat, case, seed):
     gf = _build(m)
     sites = m["sites"]
     nd = len(sites)
+    groups = _groups(sites)
     sel = None
-    for s, f in zip(sites, case["sel"]):
-        if f:
-            sel = S[s["a"]] if sel is None else (sel | S[s["a"]])
+    for a, idx in groups:
+        if case["sel"][idx[0]]:
+            sel = S[a] if sel is None else (sel | S[a])
     if case.get("with_disc"):
         sel = sel | S["b"]
     rng = random.Random(seed)
@@ -90,28 +112,44 @@ def run_case(cat, case, seed):
                       dtype=np.float32)
     discs = np.array([rng.randrange(2) for _ in range(case["nstart"])], dtype=np.int32)
     keys = jax.random.split(jax.random.key(seed), NKEY)
+    ikeys = jax.random.split(jax.random.key(seed + 1), NIND)
     eps = jnp.array(2.0 ** -case["e"], dtype=jnp.float32)
     base = dict(op="hmc", model=case["model"], sel=case["sel"], e=case["e"], with_disc=int(bool(case.get("with_disc"))))
+    nsel = sum(case["sel"])
 
-    def f(row, d, key):
+    def trace_of(row, d, key):
         ch = ChoiceMap.empty()
-        for j, s in enumerate(sites):
-            ch = ch | C[s["a"]].set(row[j])
+        for a, idx in groups:
+            ch = ch | C[a].set(row[idx[0]] if len(idx) == 1 else jnp.stack([row[j] for j in idx]))
         if m["disc"]:
             ch = ch | C["b"].set(d.astype(bool))
         tr, _ = gf.importance(key, ch, ())
+        return tr
+
+    def positions(nch):
+        return jnp.concatenate([jnp.atleast_1d(nch[a]) for a, _ in groups])
+
+    def f(row, d, key):
+        tr = trace_of(row, d, key)
         outs = []
         for L in (1, 2, 3, 4):
             new_tr, alpha, _, _ = HMC(sel, eps, L).edit(key, tr, ())
             nch = new_tr.get_choices()
-            q = jnp.stack([nch[s["a"]] for s in sites])
             db = nch["b"].astype(jnp.int32) if m["disc"] else jnp.int32(-1)
-            outs.append((q, alpha, db))
+            outs.append((positions(nch), alpha, db))
         return outs
 
+    def g(row, d, key):      # one leapfrog step only: first positions for the momentum-independence clause
+        new_tr, _, _, _ = HMC(sel, eps, 1).edit(key, trace_of(row, d, key), ())
+        return positions(new_tr.get_choices())
+
+    def both(st, ds):
+        main = jax.vmap(lambda row, d: jax.vmap(lambda k: f(row, d, k))(keys))(st, ds)
+        ind = jax.vmap(lambda k: g(st[0], ds[0], k))(ikeys) if nsel >= 2 and not case.get("with_disc") else None
+        return main, ind
+
     try:
-        res = jax.jit(jax.vmap(lambda row, d: jax.vmap(lambda k: f(row, d, k))(keys)))(jnp.asarray(starts),
-                                                                                     jnp.asarray(discs))
+        res, ind = jax.jit(both)(jnp.asarray(starts), jnp.asarray(discs))
     except Exception as e:
         return [dict(base, status="raised:" + type(e).__name__, msg=str(e)[:300], q0=[], qs=[], alphas=[], disc0=-1,
                      discs=[])]
@@ -124,6 +162,9 @@ def run_case(cat, case, seed):
         for b in range(NKEY):
             events.append(dict(base, status="ok", q0=q0[a].tolist(), qs=qs[a, b].tolist(), alphas=al[a, b].tolist(),
                                disc0=int(discs[a]) if m["disc"] else -1, discs=db[a, b].tolist()))
+    if ind is not None:
+        events.append(dict(base, op="hmcind", status="ok", q0=q0[0].tolist(), q1=_fx(ind).tolist(), qs=[], alphas=[],
+                           disc0=-1, discs=[]))
     return events
 
 
@@ -151,11 +192,21 @@ def _cases(cat, tier, seed):
     out = []
     for m in cat["models"]:
         nd = len(m["sites"])
-        sels = [f for f in itertools.product([0, 1], repeat=nd) if any(f)]
-        if tier == "quick" and len(sels) > 4:          # seeded subset, always including "everything selected"
+        groups = _groups(m["sites"])
+        sels = []
+        for gf_ in itertools.product([0, 1], repeat=len(groups)):      # selections are over addresses
+            if any(gf_):
+                flags = [0] * nd
+                for on, (_, idx) in zip(gf_, groups):
+                    for j in idx:
+                        flags[j] = on
+                sels.append(tuple(flags))
+        if tier == "quick" and len(sels) > 3:          # seeded subset, always including "everything selected"
             rest = [f for f in sels if not all(f)]
             rng.shuffle(rest)
-            sels = [tuple([1] * nd)] + rest[:3]
+            sels = [tuple([1] * nd)] + rest[:2]
+        if tier == "quick" and len(groups) < nd:       # array-valued choice: the vector alone and everything
+            sels = [f for f in sels if f[groups[0][1][0]]][:2]
         for n, flags in enumerate(sels):
             es = (1, 2) if tier != "quick" else ((1, 2)[(n + seed) % 2],)
             for e in es:
@@ -235,7 +286,7 @@ def run(prop_id, tier, seed, replay=None):
     if judged:
         cfgT = os.path.join(wd, "Trace.cfg")
         with open(cfgT, "w") as f:
-            f.write(f"CONSTANTS Emit = FALSE\n GridMax = 0\n TOLQ = {TOLQ}\n TOLA = {TOLA}\n"
+            f.write(f"CONSTANTS Emit = FALSE\n GridMax = 0\n TOLQ = {TOLQ}\n TOLA = {TOLA}\n HBI = {HBI}\n"
                     "SPECIFICATION TSpec\nCHECK_DEADLOCK FALSE\n")
         resT = vlib.run_tlc("HMCTrace", cfgT, wd, tag="trace", workers=1, timeout=2400,
                             env={"TRACE_FILE": trace}, jvm=["-Xmx4g", "-Xss64m"])
@@ -266,7 +317,9 @@ def run(prop_id, tier, seed, replay=None):
     rep.evaluations = len(events)
     rep.traces = len(judged)
     for e in judged:
-        if e["status"] == "ok" and any(abs(a - b) > U16 // 64 for a, b in zip(e["qs"][0], e["qs"][1])):
+        if e["op"] == "hmcind":
+            rep.nontrivial.add(("ind", e["model"], tuple(e["sel"]), e["e"]))
+        elif e["status"] == "ok" and any(abs(a - b) > U16 // 64 for a, b in zip(e["qs"][0], e["qs"][1])):
             rep.nontrivial.add((e["model"], tuple(e["sel"]), e["e"], tuple(e["q0"])))
     for e in judged[:: max(1, len(judged) // 4)]:
         rep.sample({k: v for k, v in e.items() if k != "msg"})
